@@ -31,6 +31,12 @@ Proof.
     change (2 ^ 2) with 4 in *. pose proof (pow2_pos (d - 2) ltac:(lia)). lia.
 Qed.
 
+Lemma grow_size_bounds limit n : 20 <= n -> n + 2 <= grow_size limit n /\ limit < grow_size limit n.
+Proof.
+  intros H. unfold grow_size. pose proof (round_half_even_ge (3 * n) ltac:(lia)).
+  assert (n + 2 <= 3 * n / 2) by (apply Z.div_le_lower_bound; lia). lia.
+Qed.
+
 Definition npos (m : list Z) (d : Z) : Z := npos_range m 0 (Z.to_nat d).
 
 Lemma pow2_npos_le_cnt m d : 2 ^ npos m d <= cnt m d + 1.
@@ -146,6 +152,107 @@ Proof.
   split; [exact M2|]. split; [exact M3|]. split; [rewrite M4; exact E3|]. split; [exact M5|].
   split; [exact M6|]. split; [exact M7|]. split; [lia|].
   destruct M9 as [M9|[M9 M9']]; [left; exact M9|right; split; [exact M9|lia]].
+Qed.
+
+(* ------------------------------------------------------------------ the invariant with its volume budget *)
+(* F = number of flushes so far that were NOT followed by merge_all, E = number of events appended so far.
+   The level counter and 2^(depth-1) are bounded by 4 * (F + 1); limit * F is paid for by the potential
+   2 * E - 2 * ind + |min[0]| = (entries removed so far) + (entries appended before the last flush). *)
+Definition VInv (limit : Z) (c : coo) (F E : Z) : Prop :=
+  Inv Q c (4 * (F + 1)) /\ 0 <= F /\ limit * F + 2 * ind c - Z.abs (nthZ (mn c) 0) <= 2 * E.
+
+Lemma cnt_grow limit c : cnt (mn (coo_increase_mem limit c)) (depth (coo_increase_mem limit c)) = cnt (mn c) (depth c).
+Proof.
+  unfold cnt. simpl depth. apply cnt_range_ext. intros. unfold coo_increase_mem; simpl. apply nthZ_extend0.
+Qed.
+
+(* what one flush_tail (the body of either `if` of coo_append) does to the invariant.
+   `why`: the reason coo_append called it: the sort window has reached the threshold, or the buffer is full *)
+Lemma flush_tail_v limit c F E :
+  1 <= limit -> VInv limit c F E -> ind c <= cap c - 1 -> 20 <= cap c ->
+  4 * F + 6 < 2 ^ (zlen (mn c) - 1) ->
+  (limit <= ind c - Z.abs (nthZ (mn c) 0) \/ ind c = cap c - 1) ->
+  exists c' F',
+    flush_tail limit c = Ok c' /\ VInv limit c' F' E /\ ind c' <= cap c' - 2 /\ 20 <= cap c' /\
+    (forall k, sumby (live c') k = sumby (live c) k) /\
+    (F' = F \/ (F' = F + 1 /\ limit < cap c)) /\
+    ((cap c' = cap c /\ zlen (mn c') = zlen (mn c)) \/
+     (F' = F /\ limit < cap c' /\ cap c < cap c' /\ zlen (mn c) <= zlen (mn c') /\
+      grow_min_size (zlen (mn c)) <= zlen (mn c') /\ ssorted (live c') /\ 19 * cap c <= 20 * ind c')).
+Proof.
+  intros Hl (HI & HF & HP) Hic Hcap HG Hwhy.
+  pose proof HI as (S0 & C0 & D0).
+  pose proof (so_ind Q c S0) as Hi0. pose proof (so_depth Q c S0) as Hd0.
+  set (a0 := Z.abs (nthZ (mn c) 0)) in *.
+  set (P := 2 ^ (zlen (mn c) - 1)) in *.
+  destruct (csd_ok Q c) as (c1 & E1 & P1); [exact S0|clear - Hic; lia|fold P; clear - C0 HG; lia|].
+  destruct P1 as (S1 & Q1 & Q2 & Q3 & Q4 & Q5 & Q6 & Q7).
+  unfold flush_tail. rewrite E1. cbn [bind].
+  pose proof (so_depth Q c1 S1) as Hd1.
+  rewrite (getZ_nthZ _ (mn c1) 0) by (clear - Hd1; lia). cbn [bind]. rewrite Q4, Q1.
+  assert (C1 : cnt (mn c1) (depth c1) <= 4 * F + 5) by (clear - C0 Q6; lia).
+  assert (D1 : depth c1 = 0 \/ 2 ^ (depth c1 - 1) <= 4 * F + 5).
+  { destruct Q7 as [Ed|[Ed Ed']].
+    - rewrite Ed. destruct D0 as [D0|D0]; [left; exact D0|right; clear - D0; lia].
+    - right. rewrite Ed. replace (depth c + 1 - 1) with (depth c) by lia. clear - Ed' C0. lia. }
+  destruct (cap c - ind c1 <=? limit) eqn:T.
+  - (* followed by merge_all: the counter is compacted *)
+    apply Z.leb_le in T.
+    destruct (ma_ok_strong c1) as (c2 & E2 & P2 & Hs & Hc2);
+      [exact S1|clear - Q1 Q3 Hic; lia|rewrite Q2; fold P; clear - C1 HG; lia|exact Q4|].
+    destruct P2 as (S2 & R1 & R2 & R3 & R4 & R5 & R6 & R7).
+    rewrite E2. cbn [bind].
+    assert (C2 : cnt (mn c2) (depth c2) <= 4 * (F + 1)).
+    { pose proof (pow2_npos_le_cnt (mn c1) (depth c1)) as A1. pose proof (npos_nonneg (mn c1) (depth c1)) as A2.
+      pose proof (pow2_4k (npos (mn c1) (depth c1)) F A2 HF ltac:(clear - A1 C1; lia)) as A3.
+      clear - A3 Hc2. lia. }
+    assert (D2 : depth c2 = 0 \/ 2 ^ (depth c2 - 1) <= 4 * (F + 1)).
+    { destruct R7 as [Ed|[Ed Ed']].
+      - rewrite Ed. destruct D1 as [D1|D1]; [left; exact D1|].
+        destruct (Z_lt_le_dec (depth c1) 1); [left; clear - Hd1 l; lia|right].
+        apply pow2_4k; [clear - l; lia|exact HF|clear - D1; lia].
+      - right. rewrite Ed. replace (depth c1 + 1 - 1) with (depth c1) by lia.
+        apply pow2_4k; [clear - Hd1; lia|exact HF|clear - Ed' C1; lia]. }
+    assert (I2 : Inv Q c2 (4 * (F + 1))) by (split; [exact S2|split; [exact C2|exact D2]]).
+    assert (HP2 : limit * F + 2 * ind c2 - Z.abs (nthZ (mn c2) 0) <= 2 * E)
+      by (rewrite R4; clear - HP Hi0 Q3 R3; lia).
+    assert (Hi2 : ind c2 <= cap c - 1) by (clear - R3 Q3 Hic; lia).
+    assert (K2 : cap c2 = cap c) by (rewrite R1; exact Q1).
+    assert (Z2 : zlen (mn c2) = zlen (mn c)) by (rewrite R2; exact Q2).
+    assert (U2 : forall k, sumby (live c2) k = sumby (live c) k) by (intros k; rewrite R5, Q5; reflexivity).
+    destruct (20 * ind c2 >=? 19 * cap c2) eqn:T2.
+    + rewrite Z.geb_leb in T2. apply Z.leb_le in T2.
+      destruct (grow_inv Q limit c2 (4 * (F + 1)) I2) as (I3 & G1 & G2 & G3 & G4); [rewrite K2; clear - Hi2; lia|].
+      exists (coo_increase_mem limit c2), F. split; [reflexivity|].
+      pose proof (grow_size_bounds limit (cap c) Hcap) as [Hg1 Hg2].
+      assert (Hmz : zlen (mn (coo_increase_mem limit c2)) = Z.max (zlen (mn c2)) (grow_min_size (zlen (mn c2))))
+        by (unfold coo_increase_mem; simpl; apply zlen_extend).
+      split.
+      { split; [exact I3|]. split; [exact HF|]. rewrite G1.
+        replace (nthZ (mn (coo_increase_mem limit c2)) 0) with (nthZ (mn c2) 0)
+          by (unfold coo_increase_mem; simpl; symmetry; apply nthZ_extend0). exact HP2. }
+      rewrite G1, G2, G4, K2. rewrite Hmz, Z2. rewrite K2 in T2.
+      split; [clear - Hi2 Hg1; lia|]. split; [clear - Hcap Hg1; lia|]. split; [exact U2|].
+      split; [left; reflexivity|]. right.
+      split; [reflexivity|]. split; [clear - Hg2; lia|]. split; [clear - Hg1; lia|]. split; [lia|]. split; [lia|].
+      split; [exact Hs|exact T2].
+    + rewrite Z.geb_leb in T2. apply Z.leb_gt in T2. rewrite K2 in T2.
+      exists c2, F. split; [reflexivity|]. split; [split; [exact I2|split; [exact HF|exact HP2]]|].
+      rewrite K2, Z2.
+      split; [clear - T2 Hcap; lia|]. split; [exact Hcap|]. split; [exact U2|].
+      split; [left; reflexivity|]. left. split; reflexivity.
+  - (* not followed by merge_all: one more unit of F, paid by the window or by the shrinkage *)
+    apply Z.leb_gt in T.
+    exists c1, (F + 1). split; [reflexivity|].
+    split.
+    { split; [split; [exact S1|split]|split].
+      - clear - C1; lia.
+      - destruct D1 as [D1|D1]; [left; exact D1|right; clear - D1; lia].
+      - clear - HF; lia.
+      - rewrite Q4. clear - Hwhy HP Hi0 Q3 T Hic. destruct Hwhy as [W|W]; lia. }
+    rewrite Q1, Q2.
+    split; [clear - T Hl; lia|]. split; [exact Hcap|]. split; [exact Q5|].
+    split; [right; split; [reflexivity|clear - T Q3 Hl; lia]|]. left. split; reflexivity.
 Qed.
 
 End WithQ.
